@@ -6,7 +6,7 @@ import json, os, sys
 CHECKS = {
  "C07": ("model_checking",
          "explicit-state breadth-first search over a reference model of the keymap; every transition replayed on a fresh real ui.State (key + settle under the scheduler's default schedule) and compared",
-         "10 start commands on a generated world (thread with ancestors and paged replies, actor with paged outbox, multi-author post with unfetchable parent, empty outbox, outbox with a missing second page, feed of two actors, empty feed, failing URL, empty collection, paged collection opened as a listing); alphabet of 38 tokens (keymap keys, digits, Esc, Backspace, NUL/LF/0xC3, :open/:feed/unknown commands, a 20-digit number, 0 Enter, n .); model depth 3 plus a second search to depth 6 over the page-opening and history keys only (quick, about 20 000 transitions) / 5 at two geometries and preload values (thorough): after every transition mode, buffer, history length and index and the highlighted item equal the model's, no panic, no deadlock, quiescence reached, and every emitted frame has the terminal's height, is terminal-safe and leaks no attribute.",
+         "10 start commands on a generated world (thread with ancestors and paged replies, actor with paged outbox, multi-author post with unfetchable parent, empty outbox, outbox with a missing second page, feed of two actors, empty feed, failing URL, empty collection, paged collection opened as a listing); alphabet of 38 tokens (keymap keys, digits, Esc, Backspace, NUL/LF/0xC3, :open/:feed/unknown commands, a 20-digit number, 0 Enter, n .); model depth 3 plus a second search to depth 6 over the page-opening and history keys only (quick, about 20 000 transitions) / 5 at two geometries and preload values (thorough): after every transition mode, buffer, history length and index and the highlighted item equal the model's, no panic, no deadlock, quiescence reached, and every emitted frame has the terminal's height, is terminal-safe and leaks no attribute. End to end: 24 key sequences (every key class, commands, arbitrary bytes) through the built servitor program on a pseudo-terminal and through ui.State driven directly; paced by events (a key is typed once the program shows the settled screen of the keys before it); the screens must be identical after every key.",
          "Trusted: lib/uimodel (world ground truth and keymap model written from the readme and the statement). A transition is key + settle (interleavings are C08's); keys the statement does not define while a number is being typed are crash-checked only; the preload window is not judged; history capped at 4 pages; preload_amount >= 1.",
          "DESIGN.md §3 C07"),
  "C08": ("model_checking",
